@@ -312,6 +312,9 @@ func (ctl *c12Ctl) callback(s *c12Stream, what string) {
 	if n == 1 {
 		c = ctl.connID[held]
 		_, st, _ := ctl.connInfo(held)
+		if !ctl.connLocked(held) {
+			ctl.fail("C12:mutex", fmt.Sprintf("callback on stream %d although the mutex of connection object %d is not held", s.id, c))
+		}
 		if !ctl.streamIs(st, s) {
 			ctl.fail("C12:mutex", fmt.Sprintf("callback on stream %d while holding the lock of object %d, which owns another stream", s.id, c))
 		}
@@ -543,6 +546,9 @@ func (ctl *c12Ctl) step(t int) bool {
 		if closed {
 			ctl.tags["close-between-lookup-and-lock"] = true
 		}
+		if ctl.connLocked(th.want) {
+			ctl.fail("C12:harness-lock-tracking", "a connection mutex is held although no thread is recorded as its owner")
+		}
 	}
 	th.resume <- struct{}{}
 	select {
@@ -552,6 +558,13 @@ func (ctl *c12Ctl) step(t int) bool {
 	}
 	ctl.checkPool()
 	return true
+}
+
+func (ctl *c12Ctl) connLocked(obj interface{}) bool {
+	if ctl.pkg == "t" {
+		return tcpassembly.VerifConnLocked(obj)
+	}
+	return reassembly.VerifConnLocked(obj)
 }
 
 func (ctl *c12Ctl) connInfoOf(obj interface{}) (string, interface{}, bool) { return ctl.connInfo(obj) }
